@@ -298,11 +298,9 @@ bool kirsch_bounded_kfifo_queue<T, Policies...>::committed(const marked_idx& tai
     return true;
   }
 
-  // head must be read before tail: both only move forward, so head_current <= head <= tail holds when tail is read and the pair describes a
-  // region the item was really in; with the opposite order head can already have passed the tail value that was read.
-  marked_idx head_current = _head.load(std::memory_order_acquire);
-  XENIUM_VERIF_POINT("kirsch_bounded_kfifo_queue.committed.between_loads");
   marked_idx tail_current = _tail.load(std::memory_order_relaxed);
+  XENIUM_VERIF_POINT("kirsch_bounded_kfifo_queue.committed.between_loads");
+  marked_idx head_current = _head.load(std::memory_order_relaxed);
   if (in_valid_region(tail_old.get(), tail_current.get(), head_current.get())) {
     return true;
   }
